@@ -313,7 +313,10 @@ class Fxp():
 
         """
         self._update_dtype(notation)    # update dtype
-        return self._dtype
+        dtype = self._dtype
+        if notation is not None:
+            self._update_dtype()        # the dtype attribute stays in the configured notation
+        return dtype
     
     def _qfmt(self):
         return re.compile(r'(s|u|q|uq|qu)(\d+)(\.[+-]?\d+)?')
@@ -785,8 +788,6 @@ class Fxp():
     def _update_dtype(self, notation=None):
         if notation is None:
             notation = self.config.dtype_notation
-        else:
-            notation = 'fxp'
 
         if self.signed is not None and self.n_word is not None and self.n_frac is not None:
             if notation == 'Q':
